@@ -21,6 +21,10 @@ package builder
 //@ effect io_only template.New, (*template.Template).Parse, (*template.Template).Execute, (*os.File).Close, panic
 //@ effect const_suffix goCodeTemplateStr "{{.CodeLast}}"
 //@ effect const_suffix goObjectTemplateStr "{{.CodeLast}}"
+// the templates only read FIELDS of the builder (text/template would call a method of that name during Execute, i.e. after
+// the output file has been truncated): this is what makes "Execute is input-infallible" a fair assumption
+//@ effect template_fields goCodeTemplateStr TemplateBuilder
+//@ effect template_fields goObjectTemplateStr TemplateBuilder
 
 //@ func TsGenFromString
 //@ props C19
